@@ -209,11 +209,11 @@ static void *tramp(void *p) {
   Th *me = self;
   me->pend = EXIT;
   me->obj = nullptr;
-  // grant our own EXIT immediately (thread termination is not a choice), then hand the baton on
+  // grant our own EXIT immediately (thread termination is not a choice and not a recorded
+  // decision), then hand the baton on
   logsync(me);
   me->finished = true;
   me->pend = NONE;
-  g_dec.push_back(Decision{me->id, me->id, 1u << (me->id & 31)});
   Th *nx = pick(me);
   if (nx) sem_post(&nx->sem);
   delete a;
